@@ -286,7 +286,7 @@ func areUnknownAttributesAdded(content []byte) []string {
 	// Ignoring error because we already successfully unmarshalled before this
 	// point
 	_ = json.Unmarshal(content, &targetArtifactMap)
-	descriptor := targetArtifactMap["targetArtifact"].(map[string]interface{})
+	descriptor, _ := targetArtifactMap["targetArtifact"].(map[string]interface{})
 
 	// Explicitly remove expected keys to check if any are left over
 	delete(descriptor, "mediaType")
